@@ -33,6 +33,9 @@ def tag_of(args, shell: bool) -> str:
     return os.path.basename(os.fspath(args[0]))
 
 
+EXACTLYS_OWN_STDIN = 'text waiting on the stdin of the Exactly process\n'
+
+
 def _fd_of(handle):
     """What the real _get_handles does: ints are fds, everything else must have fileno()."""
     if handle is None:
@@ -111,7 +114,9 @@ class SimPopen:
         self._b = b
         eff_cwd = os.fspath(cwd) if cwd is not None else _getcwd()
         eff_env = dict(env) if env is not None else dict(os.environ)
-        stdin_txt = _read_stdin(fd_in)
+        # a child that is given no stdin inherits that of the Exactly process: the text waiting there is part of the
+        # simulated world (plan['exactly_stdin']), never the real stdin of the harness
+        stdin_txt = _read_stdin(fd_in) if stdin is not None else sim.plan.get('exactly_stdin', EXACTLYS_OWN_STDIN)
         SimPopen._pid_counter += 1
         self.pid = SimPopen._pid_counter
         rec = {
